@@ -225,11 +225,29 @@ func checkC13(c *Ctx, n int) {
 			secName = caseMix(g, s.name)
 		}
 		var ini strings.Builder
+		// the entries may be spread over two sections that denote the same group: entries before any
+		// header (they address all of the parser's own groups) and the group's own section, or two
+		// spellings of the group's description that differ in case
+		splitAt, secondHeader := -1, ""
+		if len(vals) >= 2 && len(s.path) == 0 && s.name != "" && c.Rng.Intn(2) == 0 {
+			if resolveIniName(secs[0].opts, name) == target && c.Rng.Intn(2) == 0 {
+				splitAt, secondHeader = 1+c.Rng.Intn(len(vals)-1), secName
+				secName = ""
+				c.Class("c13/entries-split-over-global-and-group-section")
+			} else if strings.ToUpper(s.name) != strings.ToLower(s.name) {
+				splitAt, secondHeader = 1+c.Rng.Intn(len(vals)-1), strings.ToUpper(s.name)
+				secName = strings.ToLower(s.name)
+				c.Class("c13/entries-split-over-two-spellings-of-the-section")
+			}
+		}
 		if secName != "" {
 			ini.WriteString("[" + secName + "]\n")
 		}
 		argv := append([]string{}, s.path...)
-		for _, v := range vals {
+		for vi, v := range vals {
+			if vi == splitAt {
+				ini.WriteString("[" + secondHeader + "]\n")
+			}
 			ini.WriteString(name + " = " + v + "\n")
 			if isBoolCode(code) && v == "" {
 				argv = append(argv, "--"+long)
